@@ -45,8 +45,8 @@ def cprefs(p):
     q.compressionLevel = p["level"]; q.autoFlush = p["autoFlush"]; q.favorDecSpeed = p["favorDec"]
     return q
 
-LIGHT_KINDS = ["period", "runs", "zerorich", "incompressible_tail", "barely", "random", "longmatch", "farcopy", "farcopy", "twosym"]
-HEAVY_KINDS = ["selfdict", "text", "mixed"]      # many short far matches: the list-based spec decoder costs O(offset) per match
+LIGHT_KINDS = ["period", "runs", "zerorich", "incompressible_tail", "barely", "random", "longmatch", "farcopy", "farcopy"]
+HEAVY_KINDS = ["selfdict", "text", "mixed", "twosym"]      # many short far matches: the list-based spec decoder costs O(offset) per match
 DICT_SIZES = [0, 1, 7, 8, 100, 4000, 65535, 65536, 70000, 100000]
 
 def farcopy(rng, n):
@@ -68,7 +68,7 @@ def farcopy(rng, n):
 def gen_material(rng, n, dlen, tier="quick"):
     """dictionary ++ content drawn from one stream so that the content refers to the dictionary
     and to itself up to (and beyond) 64 KB back"""
-    if n + dlen <= 40000 or rng.random() < (0.25 if tier == "thorough" else 0.08):
+    if n + dlen <= 40000 or rng.random() < (0.2 if tier == "thorough" else 0.03):
         kind = rng.choice(LIGHT_KINDS + HEAVY_KINDS)
     else:
         kind = rng.choice(LIGHT_KINDS)
@@ -160,7 +160,7 @@ def gen_frame(rng, tier, big=False):
     elif kind in ("kblocks", "tmpfull"):
         n = 4 * bs
     else:
-        n = rng.choice([0, 1, 100, 5000, 70000, 150000, 200000, 300000])
+        n = rng.choice([0, 1, 100, 5000, 20000, 70000, 140000, 200000])
     n = min(n, 1100000 if tier != "thorough" else 9000000)      # the extracted model costs ~2 us per byte
     dk = rng.choice(["n", "n", "d", "c"])
     dlen = rng.choice(DICT_SIZES) if dk != "n" else 0
@@ -642,7 +642,7 @@ def run_session_case(st, case, which):
     cs = CSession(L)
     try:
         if kind == "session":
-            nframes = rng.choice([1, 1, 2, 3])
+            nframes = rng.choice([1, 1, 1, 2, 3])
             if rng.random() < 0.25:
                 stray_ops(st, cs, rng, res, None)
             for fi in range(nframes):
